@@ -14,13 +14,23 @@ pub const RULE_POOL: [&str; 43] = [
     "{p,t} > {b}", "% > a",
 ];
 /// two fail at parse (`p#a`, `ˈ`), the rest parse; which ones fail at apply depends on the rule
-pub const WORD_POOL: [&str; 13] = ["pa", "ta.pi", "ˈpa.taˌki", "a", "t", "paː", "ła.ta", "ɬa.ta", "p#a", "ˈ", "sa.pa51", "pad", "tka"];
+/// `pa\u{303}` / `ˈpa\u{303}`: a segment that needs a diacritic, stressed and unstressed (a romaniser with `+` prints it from its nearest plain letter)
+pub const WORD_POOL: [&str; 15] = ["pa", "ta.pi", "ˈpa.taˌki", "a", "t", "paː", "ła.ta", "ɬa.ta", "p#a", "ˈ", "sa.pa51", "pad", "tka", "pa\u{303}", "ˈpa\u{303}"];
 
 fn g(rules: &[&str]) -> Vec<RuleGroup> { rules.iter().map(|r| RuleGroup { name: String::new(), rule: vec![r.to_string()], description: String::new() }).collect() }
-fn run(rules: &[RuleGroup], words: &[String]) -> Out<Result<Vec<String>, String>> {
+/// the alias lines of a job: (deromanisers, romanisers)
+pub type Al = (&'static [&'static str], &'static [&'static str]);
+pub const NO_ALIAS: Al = (&[], &[]);
+/// alias sets whose effect on one word depends on that word only: a `+` romaniser conditioned on stress / length (matches some occurrences of a
+/// segment and not others), a deromaniser with its inverse, boundary removal
+pub const ALIAS_SETS: [Al; 4] = [(&[], &["V:[+str] => +@{acute}"]), (&["sh > ʃ", "A > a:[+long]"], &["ʃ > sh", "a:[+long] > A"]), (&[], &["$ > *", "V:[+long] > +@{macron}", "[+nasal] > +N"]), (&["q > k"], &["[] > +x"])];
+fn al_index(al: Al) -> i64 { ALIAS_SETS.iter().position(|x| *x == al).map(|x| x as i64).unwrap_or(-1) }
+fn al_tag(al: Al) -> String { if al.0.is_empty() && al.1.is_empty() { String::new() } else { format!("|into {:?} from {:?}", al.0, al.1) } }
+fn run(al: Al, rules: &[RuleGroup], words: &[String]) -> Out<Result<Vec<String>, String>> {
     let rl: usize = rules.iter().map(|g| g.rule[0].chars().count() + 1).sum();
     let wl: usize = words.iter().map(|w| w.chars().count() + 1).sum();
-    guarded(budget_for(wl, rl) * 2, || asca::run(rules, words, &[], &[]).map_err(|e| format!("{:?}", e)))
+    let (i, f): (Vec<String>, Vec<String>) = (al.0.iter().map(|x| x.to_string()).collect(), al.1.iter().map(|x| x.to_string()).collect());
+    guarded(budget_for(wl, rl) * 2, || asca::run(rules, words, &i, &f).map_err(|e| format!("{:?}", e)))
 }
 
 #[derive(Default)]
@@ -28,8 +38,8 @@ struct Acc { evals: u64, ok: u64, errs: u64, viols: Vec<Viol>, outs: std::collec
 impl Acc { fn merge(&mut self, o: Acc) { self.evals += o.evals; self.ok += o.ok; self.errs += o.errs; self.viols.extend(o.viols); self.outs.extend(o.outs); } }
 
 /// single-word results for this rule list, phase of failure: 0 ok, 1 parse (word syntax), 2 apply
-fn singles(rules: &[RuleGroup]) -> Vec<(Result<String, String>, u8)> {
-    WORD_POOL.iter().map(|w| match run(rules, &[w.to_string()]) {
+fn singles(al: Al, rules: &[RuleGroup]) -> Vec<(Result<String, String>, u8)> {
+    WORD_POOL.iter().map(|w| match run(al, rules, &[w.to_string()]) {
         Out::Ok(Ok(v)) => (Ok(v.join("\u{1}")), 0),
         Out::Ok(Err(e)) => { let ph = if e.starts_with("WordSyn") || e.starts_with("WordRun") { 1 } else { 2 }; (Err(e), ph) }
         o => (Err(format!("CRASH {}", o.crash_desc().unwrap())), 3),
@@ -38,9 +48,11 @@ fn singles(rules: &[RuleGroup]) -> Vec<(Result<String, String>, u8)> {
 
 fn okw_all(single: &[(Result<String, String>, u8)]) -> Vec<usize> { (0..single.len()).filter(|i| single[*i].1 == 0).collect() }
 
-fn check_rules(rule_texts: &[&str], a: &mut Acc) {
+fn check_rules(rule_texts: &[&str], a: &mut Acc) { check_rules_al(NO_ALIAS, rule_texts, a) }
+
+fn check_rules_al(al: Al, rule_texts: &[&str], a: &mut Acc) {
     let rules = g(rule_texts);
-    let single = singles(&rules);
+    let single = singles(al, &rules);
     if single.iter().any(|s| s.1 == 3) { return; } // crashes are C02's
     let n = WORD_POOL.len();
     // all ordered lists of 1..=3 pool words
@@ -49,11 +61,11 @@ fn check_rules(rule_texts: &[&str], a: &mut Acc) {
     for l in &lists {
         a.evals += 1;
         let words: Vec<String> = l.iter().map(|i| WORD_POOL[*i].to_string()).collect();
-        let got = match run(&rules, &words) { Out::Ok(x) => x, _ => continue };
+        let got = match run(al, &rules, &words) { Out::Ok(x) => x, _ => continue };
         let first_parse = l.iter().find(|i| single[**i].1 == 1);
         let first_apply = l.iter().find(|i| single[**i].1 == 2);
-        let key = || format!("list|{}|{}", rule_texts.join(" ;; "), words.join(" , "));
-        let case = || json!({"kind": "list", "rules": rule_texts, "words": words});
+        let key = || format!("list|{}|{}{}", rule_texts.join(" ;; "), words.join(" , "), al_tag(al));
+        let case = || json!({"al": al_index(al), "kind": "list", "rules": rule_texts, "words": words});
         match (first_parse, first_apply) {
             (None, None) => {
                 let want: Vec<String> = l.iter().map(|i| single[*i].0.clone().unwrap()).collect();
@@ -87,24 +99,24 @@ fn check_rules(rule_texts: &[&str], a: &mut Acc) {
         let mut lists = vec![("alone", vec![line.clone()])];
         if let Some(g) = good { lists.push(("after-a-good-line", vec![g, line.clone()])); }
         for (which, list) in lists {
-            match run(&rules, &list) {
+            match run(al, &rules, &list) {
                 Out::Ok(Err(e)) if !same_phase || e == want => a.errs += 1,
-                Out::Ok(x) => a.viols.push(Viol { key: format!("failing-line|{}|{}|{}", rule_texts.join(" ;; "), line, which), desc: format!("run([{}], {:?}) = {:?}, expected the error of the first failing word `{}`: {}", rule_texts.join(" ;; "), list, x, WORD_POOL[first], want), case: json!({"kind": "failing-line", "rules": rule_texts, "line": line, "which": which}) }),
+                Out::Ok(x) => a.viols.push(Viol { key: format!("failing-line|{}|{}|{}{}", rule_texts.join(" ;; "), line, which, al_tag(al)), desc: format!("run([{}], {:?}) = {:?}, expected the error of the first failing word `{}`: {}", rule_texts.join(" ;; "), list, x, WORD_POOL[first], want), case: json!({"al": al_index(al), "kind": "failing-line", "rules": rule_texts, "line": line, "which": which}) }),
                 _ => {}
             }
         }
     } }
     // lines with an empty word (leading space, two spaces in a row): the empty word keeps its slot
-    if let Out::Ok(Ok(ev)) = run(&rules, &[String::new()]) { if ev.len() == 1 {
+    if let Out::Ok(Ok(ev)) = run(al, &rules, &[String::new()]) { if ev.len() == 1 {
         let e = ev[0].clone();
         for &i in &okw_all(&single) { for &j in &okw_all(&single) {
             let (si, sj) = (single[i].0.clone().unwrap(), single[j].0.clone().unwrap());
             for (line, want) in [(format!(" {}", WORD_POOL[i]), format!("{} {}", e, si)), (format!("{}  {}", WORD_POOL[i], WORD_POOL[j]), format!("{} {} {}", si, e, sj)), (format!("  {} {}", WORD_POOL[i], WORD_POOL[j]), format!("{} {} {} {}", e, e, si, sj))] {
                 if j != i && line.starts_with(' ') && !line.starts_with("  ") { continue; } // the leading-space line does not depend on j
                 a.evals += 1;
-                match run(&rules, &[line.clone()]) {
+                match run(al, &rules, &[line.clone()]) {
                     Out::Ok(Ok(v)) if v.len() == 1 && v[0] == want => { a.ok += 1; }
-                    Out::Ok(x) => a.viols.push(Viol { key: format!("line|{}|{}", rule_texts.join(" ;; "), line), desc: format!("run([{}], [`{}`]) = {:?}, expected [`{}`] (an empty word keeps its slot)", rule_texts.join(" ;; "), line, x, want), case: json!({"kind": "line", "rules": rule_texts, "line": line, "want": want}) }),
+                    Out::Ok(x) => a.viols.push(Viol { key: format!("line|{}|{}{}", rule_texts.join(" ;; "), line, al_tag(al)), desc: format!("run([{}], [`{}`]) = {:?}, expected [`{}`] (an empty word keeps its slot)", rule_texts.join(" ;; "), line, x, want), case: json!({"al": al_index(al), "kind": "line", "rules": rule_texts, "line": line, "want": want}) }),
                     _ => {}
                 }
             }
@@ -118,9 +130,9 @@ fn check_rules(rule_texts: &[&str], a: &mut Acc) {
             let mut line = format!("{} {}", WORD_POOL[i], WORD_POOL[j]);
             let mut want = format!("{} {}", single[i].0.clone().unwrap(), single[j].0.clone().unwrap());
             if let Some(k) = third { line += &format!(" {}", WORD_POOL[k]); want += &format!(" {}", single[k].0.clone().unwrap()); }
-            match run(&rules, &[line.clone()]) {
+            match run(al, &rules, &[line.clone()]) {
                 Out::Ok(Ok(v)) if v.len() == 1 && v[0] == want => { a.ok += 1; }
-                Out::Ok(x) => a.viols.push(Viol { key: format!("line|{}|{}", rule_texts.join(" ;; "), line), desc: format!("run([{}], [`{}`]) = {:?}, expected [`{}`]", rule_texts.join(" ;; "), line, x, want), case: json!({"kind": "line", "rules": rule_texts, "line": line, "want": want}) }),
+                Out::Ok(x) => a.viols.push(Viol { key: format!("line|{}|{}{}", rule_texts.join(" ;; "), line, al_tag(al)), desc: format!("run([{}], [`{}`]) = {:?}, expected [`{}`]", rule_texts.join(" ;; "), line, x, want), case: json!({"al": al_index(al), "kind": "line", "rules": rule_texts, "line": line, "want": want}) }),
                 _ => {}
             }
         }
@@ -139,6 +151,15 @@ pub fn run_check() -> i32 {
     if !thorough { for a in failing { for b in failing { if a != b { jobs.push(vec![a, b]); } } } }
     let mut t = Acc::default();
     par_fold(jobs.len(), 1, Acc::default, |i, a| check_rules(&jobs[i], a), |a| t.merge(a));
+    // the same with aliases in force: each entry still depends on its own line only
+    let alias_rules: [&[&str]; 8] = [&[], &["a > e"], &["V > [+long] / _#"], &["% > [+stress] / #_"], &["t > d / V_V", "a > [+nasal] / _#"], &["%:[+stress] > [-stress]"], &["a > *"], &["C=1 V=2 > 2 1"]];
+    let mut ajobs: Vec<(Al, &[&str])> = vec![];
+    for al in ALIAS_SETS { for rl in alias_rules { ajobs.push((al, rl)); } }
+    let mut ta = Acc::default();
+    par_fold(ajobs.len(), 1, Acc::default, |i, a| check_rules_al(ajobs[i].0, ajobs[i].1, a), |a| ta.merge(a));
+    r.boxes.push(json!({"box": "rule lists x word lists / lines with aliases in force (4 alias sets x 8 rule lists)", "jobs": ajobs.len(), "comparisons": ta.evals, "ok": ta.ok, "error_lists": ta.errs}));
+    r.guard(ta.ok > 10_000, "alias jobs: more than 10k lists succeed");
+    t.merge(ta);
     r.evaluations = t.evals; r.transitions = t.evals; r.validated = t.ok + t.errs; r.nontrivial = t.ok; r.states = t.outs;
     r.outcome("ok_lists_and_lines", t.ok); r.outcome("error_lists", t.errs);
     r.boxes.push(json!({"box": "rule lists x word lists / lines", "rule_lists": jobs.len(), "comparisons": t.evals, "ok": t.ok, "error_lists": t.errs}));
@@ -151,7 +172,9 @@ pub fn run_check() -> i32 {
 pub fn replay(case: &Value) -> Result<String, String> {
     let rules: Vec<&str> = case["rules"].as_array().ok_or("rules")?.iter().map(|x| x.as_str().unwrap_or("")).collect();
     let mut a = Acc::default();
-    check_rules(&rules, &mut a);
+    let al = case["al"].as_i64().filter(|x| *x >= 0).map(|x| ALIAS_SETS[x as usize]).unwrap_or(NO_ALIAS);
+    check_rules_al(al, &rules, &mut a);
     let want_key = match case["kind"].as_str() { Some("failing-line") => format!("failing-line|{}|{}|{}", rules.join(" ;; "), case["line"].as_str().unwrap_or(""), case["which"].as_str().unwrap_or("")), Some("line") => format!("line|{}|{}", rules.join(" ;; "), case["line"].as_str().unwrap_or("")), _ => format!("list|{}|{}", rules.join(" ;; "), case["words"].as_array().map(|v| v.iter().map(|x| x.as_str().unwrap_or("")).collect::<Vec<_>>().join(" , ")).unwrap_or_default()) };
+    let want_key = format!("{}{}", want_key, al_tag(al));
     match a.viols.iter().find(|v| v.key == want_key) { Some(v) => Err(v.desc.clone()), None => Ok("independent and in order".into()) }
 }
